@@ -238,6 +238,7 @@ CHECKS['C17'] = dict(
          '(end to end) every ShiftCollider::resolve performed while shaping (hooks in Pass::resolveCollisions): Awami_test, Awami_compressed_test, AwamiNastaliq-Regular x awami corpus lines/words (250 quick / all thorough) x dir {1,3}, and S-full / S-full RTL / S-full without sub-boxes x all strings of length 1..4 (thorough 1..5) containing a mark over 7 characters x dir {0,1}: '
          'limit clause (accumulated offset + new shift inside a well-formed limit rectangle when it started inside), verdict clause (isCol false => the target bounding octabox at its new placement is separated, on one of the four octagon axes, from the octabox or every sub-octabox of each merged non-ignored neighbour; tolerance 0.05), Zones invariants of the four axis ranges. LTR glyphs with x-asymmetric limits are outside the property (DESIGN 7.1). '
          '(collider_lattice) a real ShiftCollider on a real segment: target glyph at the origin, ONE neighbour on a 21x21 (thorough 31x31) lattice of origins spanning both glyph extents, x (target, neighbour) from 5 (thorough 8) octabox-bearing glyphs of Awami_test and of S-full (with and without sub-boxes) x 5 limit rectangles (incl. zero-area) x margin {0,20} x 6 accumulated offsets x 2 current shifts x dir {LTR,RTL} x isAfter {0,1}: initSlot, mergeSlot, resolve, then the same three clauses. '
+         '(collider_lattice_seq) the one-neighbour lattice with sequence-order constraints on the pair (collision.order in {RIGHTUP, LEFTDOWN, NOABOVE, NOBELOW, NOLEFT, NORIGHT} x {same sequence class, proximity class}, sameCluster, order weights) and with an exclusion glyph on the neighbour (2 offsets): same three clauses (these regions only remove or penalise space). '
          '(kern_lattice) a real KernCollider driven as Pass::resolveKern drives it (initSlot, mergeSlot, resolve, shift): same glyphs, ONE neighbour on the 21x21 (thorough 31x31) lattice x 5 limits x margin {0,20} x previous kern offset {0,30,-30,200} x space {0,50} x dir: kern finite and horizontal, previous offset + kern inside the x range of a well-formed limit; the end-to-end runs observe every KernCollider::resolve through a hook with the same oracle. '
          '(collider_lattice2) TWO neighbours, each on its own 7x7 (thorough 9x9) lattice, the full product of both lattices, x glyph triples from 4 (thorough 5) glyphs x 4 limits x margin x 3 offsets x 2 shifts x dir x isAfter bits per neighbour. distinct = reachable free-cell patterns / distinct segments / (glyphs, limit) classes',
     level_text='Exhaustive operation-sequence enumeration on the real interval set against a lattice reference model, plus observation of every collision-resolution step of bounded shaping runs through guarded hooks with an independent octagon-geometry oracle.',
